@@ -3,15 +3,29 @@ import corr
 from checks import alu_common
 
 PROP = "C04"
-MODULE = "Proofs.C04"
+MODULE = "Proofs.C04All"
 NS = "Teakra.Alu."
 THEOREMS = [NS + t for t in ["mul_exact", "signExtend_toInt", "signExtend_toNat", "productToBus40_spec", "shl_value",
                              "shl_carry", "shl_overflow", "shr_overflow", "shr_arith_value", "shr_arith_carry",
-                             "shr_logic_value", "shr_logic_carry"]]
+                             "shr_logic_value", "shr_logic_carry",
+                             # Proofs/C04b.lean: Exp
+                             "expLoop_count", "redundantSignCount_unique", "redundantSignCount_bounds", "exp_spec",
+                             "exp_eq_of_count", "exp_eq_of_bounds", "shl_arith_value", "exp_normalises"]] + \
+           ["Teakra.Interp." + t for t in [
+               # Proofs/C04b.lean: ShiftBus40 end to end
+               "shiftBus40_run", "shiftCore_mask", "shiftCore_fv", "shifted_eq", "shifted_wf", "withShiftFlags_spec",
+               "shiftRegs_eq", "shiftRegs_spec", "shiftBus40_sat_original_sign", "shiftBus40_logic_no_saturation",
+               "shiftRegs_arith_exact",
+               # multiply-accumulate order, ProductSum
+               "run_productToBus40", "run_doMultiplication", "mac_order", "satSetRegs_mulframe", "accOf_mulRegs",
+               "mulRegs_product", "I40_of_toInt", "I40_align16", "productToBus40_range", "I40_alignP",
+               "mac_order_spec", "productSum_run", "addSub_result_U40", "productSum_spec", "sumBaseValue_spec"]]
 TRUSTED = ["hand-written model lean/TeakraModel/Alu.lean (value parts of DoMultiplication/ProductToBus40/ShiftBus40/Exp) and "
            "the handler transcriptions, tied by the `alu` helper slice and the `interp` instruction slice",
            "Mathlib.Tactic.Linarith / IntervalCases (proof automation only; kernel-checked)"]
-ASSUMPTIONS = ["pe is a 1-bit value and ps a 2-bit value in productToBus40_spec (hardware widths)"]
+ASSUMPTIONS = ["pe is a 1-bit value and ps a 2-bit value in productToBus40_spec (hardware widths)",
+               "ps is a 2-bit value in mac_order_spec / productSum_spec / I40_alignP (hardware width; the mod registers "
+               "only ever store 2 bits there)"]
 PREFIXES = ["mul_", "mpyi", "msu_", "msusu", "mac", "mma", "sqr_", "shfc", "shfi", "movs", "exp_", "norm", "app_",
             "mov_sv_app", "clrp", "mov_p", "mov2", "addhp", "divs"]
 
